@@ -203,7 +203,7 @@ PROPS['C16'] = {
 
 PROPS['C17'] = {
     'kani': {
-        'quick': [krun(['c17::q::'], timeout=900, bounds='N in {0,1,3}; scripted SeqAccess: element count symbolic in 0..=N+2, up-front hint None or symbolic 0..=N+2 (exact, too small, too large, contradicting), later hint None or 0..=2, element error at a symbolic index; tracked elements; recording Serializer over symbolic u32 elements')],
+        'quick': [krun(['c17::q::', 'c17::ql::'], timeout=900, bounds='N in {0,1,3} (and 17, 33: beyond the lengths the tuple / array impls of serde stop at); scripted SeqAccess: element count symbolic in 0..=N+2, up-front hint None or symbolic 0..=N+2 (exact, too small, too large, contradicting), later hint None or 0..=2, element error at a symbolic index; tracked elements; recording Serializer over symbolic u32 elements')],
         'thorough': [krun(['c17::'], timeout=2400, bounds='N in {0,1,2,3,4,8}')],
     },
     'functions': ['Serialize for GenericArray', 'Deserialize for GenericArray', 'GAVisitor::visit_seq', 'Dummy'],
